@@ -430,7 +430,9 @@ func modelCommit(prop string, rec *ReqRec, rq *Req, judgePanicked, opaque bool) 
 		case "obs":
 			if i := strings.Index(t.V, " len="); i >= 0 && !opaque {
 				f := strings.Fields(t.V[i+1:])[0]
-				if f != "len="+strconv.Itoa(length) {
+				// before the commit no byte has been accepted: the statement says Length() is the number of bytes
+				// accepted (0); the implementation's -1 ("nothing written yet") is accepted as well
+				if f != "len="+strconv.Itoa(length) && !(length == -1 && f == "len=0") {
 					return fail("length", "handler %s observed %s, accepted bytes so far give len=%d", t.H, f, length)
 				}
 			}
